@@ -852,3 +852,31 @@ Definition shape_file (f : file) : option pfile :=
    metadata (headers, trailers), in payload order *)
 Definition split_message (attrs : list str) (removed : list (list str)) : list str :=
   filter (fun a => negb (existsb (mem a) removed)) attrs.
+
+(* ------------------------------------- request metadata and the handler's order *)
+(* grpc/client.go Invoke: the request encoder appends to the metadata the caller's
+   context already carries (or to an empty one); the result is what the server's
+   decoder reads. grpc metadata.MD: key -> list of values, Append adds at the end. *)
+Definition mdata := list (str * list str).
+
+Fixpoint md_get (m : mdata) (key : str) : list str :=
+  match m with
+  | [] => []
+  | (k', vs) :: r => if str_eqb key k' then vs else md_get r key
+  end.
+
+Fixpoint md_append (m : mdata) (key : str) (vs : list str) : mdata :=
+  match m with
+  | [] => [(key, vs)]
+  | (k', vs') :: r => if str_eqb key k' then (k', vs' ++ vs) :: r else (k', vs') :: md_append r key vs
+  end.
+
+Definition md_write (caller : mdata) (written : list (str * list str)) : mdata :=
+  fold_left (fun m kv => md_append m (fst kv) (snd kv)) written caller.
+
+(* grpc/handler.go unaryHandler.Handle: decode, then the endpoint, then encode; a
+   failing step ends the call *)
+Inductive stage := SDecode | SEndpoint | SEncode.
+
+Definition handle_trace (decode_ok endpoint_ok : bool) : list stage :=
+  SDecode :: (if decode_ok then SEndpoint :: (if endpoint_ok then [SEncode] else []) else []).
